@@ -44,7 +44,7 @@ META = dict(
     outside="DiffractiveDetector / ClosedSurface*PoyntingFluxDetector (unfold raises NotImplementedError by design), mode-overlap and field-projection "
             "detectors (mode solver / far-field code not encodable), unfold_source_mode, non-uniform grids, reduced extents above 4 cells per axis, "
             "whether the mirrored record equals what a full-domain simulation would record (that is C33)",
-    bounds=dict(quick=dict(field_shapes=[[3, 2, 2], [2, 3, 3]], symmetry_tuples="all 26 for unfold_fields; 9 for detector scenes", detector_half_extent=[2, 3]),
+    bounds=dict(quick=dict(field_shapes=[[3, 2, 2], [2, 3, 3]], symmetry_tuples="all 26 for unfold_fields; 7 for detector scenes", detector_half_extent=[2, 3]),
                 thorough=dict(field_shapes=[[3, 2, 2], [2, 3, 3], [2, 2, 3], [4, 3, 2]], symmetry_tuples="all 26 for unfold_fields and for detector scenes", detector_half_extent=[2, 3])),
     timeout_ms=dict(quick=60000, thorough=120000),
 )
@@ -67,9 +67,9 @@ def cases(tier, seed):
     out.append(dict(name="fields-one-cell", kind="fields1"))
     out.append(dict(name="array", kind="array"))
     out.append(dict(name="array-one-cell", kind="array1"))
-    dsyms = [(-1, 0, 0), (0, 1, 0), (0, 0, -1), (1, -1, 0), (0, -1, 1), (-1, 0, -1), (-1, -1, -1), (1, 1, 1), (-1, 1, -1)] if q else ALL_SYM
+    dsyms = [(-1, 0, 0), (0, 1, 0), (0, 0, -1), (1, -1, 0), (0, -1, 1), (1, 1, 1), (-1, 1, -1)] if q else ALL_SYM
     for i, s in enumerate(dsyms):
-        out.append(dict(name=f"det-{_sname(s)}", kind="det", sym=list(s), h=2 + (i % 2)))
+        out.append(dict(name=f"det-{_sname(s)}", kind="det", sym=list(s), h=2 + (i % 2 if sum(1 for v in s if v) < 3 else 0)))
     out.append(dict(name="det-one-cell", kind="det1"))
     return out
 
@@ -224,7 +224,7 @@ def _fields(c, case):
 
                 nm = f"{ft} {_sname(sym)} {'x'.join(map(str, shp))}"
                 c.prove_eq(f"{nm}: upper half == input", upper_half(out, sym, (1, 2, 3)), f, (), lambda m, r=replay: r(m, upper=True), key=f"{kb}:upper-half")
-                c.prove_eq(f"{nm}: parity and mirror index map", out, want, (), replay, key=f"{kb}:parity-map")
+                c.prove_eq(f"{nm}: parity and mirror index map", out, want, (), replay, key=f"{kb}:parity-map", chunk=4)
                 if not twin:
                     # vacuity: an odd component exists and the lower half is not a copy of the input
                     lowidx = (0,) + tuple(0 for _ in shp)
@@ -334,7 +334,7 @@ def _array(c, case):
                 return res > 1e-9 * (1 + _maxabs(ac)), dict(array=ac, unfolded=got, documented=ref, residual=res)
 
             c.prove_eq(f"{nm}: upper half == input", upper_half(out, sym, spax), arr, (), lambda m, r=replay: r(m, upper=True), key=f"{kb}:upper-half")
-            c.prove_eq(f"{nm}: sign and mirror index map", out, want, (), replay, key=f"{kb}:parity-map")
+            c.prove_eq(f"{nm}: sign and mirror index map", out, want, (), replay, key=f"{kb}:parity-map", chunk=4)
             if not twin:
                 twin = c.witness(f"{nm}: mirrored cell can differ from the kept corner cell", sc.ne(out[(0,) * len(shp)], arr[(0,) * len(shp)]))
     if not twin:
@@ -390,10 +390,10 @@ def _det_specs(sym, h):
         add(f"e_sl{e}", "EnergyDetector", lo_s, sh_s, "energy_sl", twin=f"e_sp{e}", exact_interpolation=ex, as_slices=True)
         add(f"pf_sp{e}", "PoyntingFluxDetector", lo_p, sh_p, "poynting", exact_interpolation=ex, reduce_volume=False, direction="-" if ex else "+", pa=pa)
         add(f"pf_rv{e}", "PoyntingFluxDetector", lo_p, sh_p, "poynting_rv", twin=f"pf_sp{e}", exact_interpolation=ex, reduce_volume=True, direction="+", pa=pa)
-    add("f_sub", "FieldDetector", lo_s, sh_s, "field", exact_interpolation=False, reduce_volume=False, components=("Hz", "Ex", "Hy"))
-    add("f_sub_rv", "FieldDetector", lo_s, sh_s, "field_rv", twin="f_sub", exact_interpolation=False, reduce_volume=True, components=("Hz", "Ex", "Hy"))
-    add("ph_sub", "PhasorDetector", lo_s, sh_s, "phasor", exact_interpolation=True, reduce_volume=False, components=("Ey", "Hx"))
-    add("ph_sub_rv", "PhasorDetector", lo_s, sh_s, "phasor_rv", twin="ph_sub", exact_interpolation=False, reduce_volume=True, components=("Ey", "Hx"))
+    add("f_sub", "FieldDetector", lo_s, sh_s, "field", exact_interpolation=False, reduce_volume=False, components=("Hx", "Ex", "Ey"))
+    add("f_sub_rv", "FieldDetector", lo_s, sh_s, "field_rv", twin="f_sub", exact_interpolation=False, reduce_volume=True, components=("Hx", "Ex", "Ey"))
+    add("ph_sub", "PhasorDetector", lo_s, sh_s, "phasor", exact_interpolation=True, reduce_volume=False, components=("Hz", "Ey"))
+    add("ph_sub_rv", "PhasorDetector", lo_s, sh_s, "phasor_rv", twin="ph_sub", exact_interpolation=False, reduce_volume=True, components=("Hz", "Ey"))
     add("ppf", "PhasorPoyntingFluxDetector", lo_p, sh_p, "phasor", direction="+")
     add("f_begin", "FieldDetector", lo_b, sh_b, "untouched", exact_interpolation=True, reduce_volume=False)
     add("e_begin_rv", "EnergyDetector", lo_b, sh_b, "untouched", exact_interpolation=True, reduce_volume=True)
@@ -562,6 +562,10 @@ def _detectors(c, case, one_cell=False):
 
         if kind == "untouched" or count == 0:
             for k in o:
+                if o[k].shape != states[name][k].shape:
+                    c.fail_concrete(f"{name}/{k}: a detector that does not cross a symmetry plane was unfolded", dict(stored=list(states[name][k].shape), got=list(o[k].shape),
+                                    grid_slice=[list(x) for x in placed[name].grid_slice_tuple], unreduced_slice=[list(x) for x in placed[name].unreduced_grid_slice_tuple], symmetry=list(sym)), key=f"{kb}:untouched")
+                    continue
                 c.prove_eq(f"{name}/{k}: detector not clipped by a plane => unchanged", o[k], states[name][k], (),
                            mk_replay(lambda cs, got, k=k, name=name: (float(np.max(np.abs(got[k] - cs[name][k]))) if got[k].shape == cs[name][k].shape else float("inf"), {})), key=f"{kb}:untouched")
             continue
@@ -590,10 +594,26 @@ def _detectors(c, case, one_cell=False):
             rp_map = mk_replay(lambda cs, got, name=name, key=key, touched=touched, spax=spax, cax=cax, par=par, onp=onp:
                                (float(np.max(np.abs(got[key] - oracle_unfold(cs[name][key], touched, spax, cax, par, onp)))), dict(documented=oracle_unfold(cs[name][key], touched, spax, cax, par, onp))))
             c.prove_eq(f"{name}/{key}: upper half == stored", upper_half(o[key], touched, spax), Sx, (), rp_up, key=f"{kb}:upper-half")
-            c.prove_eq(f"{name}/{key}: parity and mirror index map", o[key], want, (), rp_map, key=f"{kb}:parity-map{':on-plane' if any_on_plane else ''}")
+            c.prove_eq(f"{name}/{key}: parity and mirror index map", o[key], want, (), rp_map, key=f"{kb}:parity-map{':on-plane' if any_on_plane else ''}", chunk=4)
             if not twin and not one_cell:
                 twin = c.witness(f"{name}: mirrored cell can differ from the kept corner cell", sc.ne(o[key][(0,) * o[key].ndim], Sx[(0,) * Sx.ndim]))
             continue
+        if kind == "energy_sl":
+            # the stored planes themselves are (T, a, b) records: even parity, mirrored along their in-plane symmetric axes
+            for pk, (pa_, pb_) in _PLANES.items():
+                P = states[name][pk]
+                sub = tuple(touched[a] if a in (pa_, pb_) else 0 for a in range(3))
+                spx = tuple({pa_: 1, pb_: 2}.get(a, 0) for a in range(3))
+                wantp = oracle_unfold(P, sub, spx, None, lambda cc, a: 1, onp) if any(sub) else P
+                if o[pk].shape != wantp.shape:
+                    c.fail_concrete(f"{name}/{pk}: in-plane symmetric axes are not doubled", dict(got=list(o[pk].shape), want=list(wantp.shape)), key=f"{kb}:shape")
+                    continue
+
+                def check_pl(cs, got, name=name, pk=pk, sub=sub, spx=spx, onp=onp):
+                    ref = oracle_unfold(cs[name][pk], sub, spx, None, lambda cc, a: 1, onp) if any(sub) else cs[name][pk]
+                    return float(np.max(np.abs(got[pk] - ref))), dict(documented=ref, plane=pk)
+
+                c.prove_eq(f"{name}/{pk}: even parity and mirror index map", o[pk], wantp, (), mk_replay(check_pl), key=f"{kb}:parity-map{':on-plane' if any_on_plane else ''}")
         # ---- reduced records: unfold(reduce(S)) == reduce(documented unfold(S)), only when nothing sits on a plane
         if any_on_plane:
             continue
